@@ -77,6 +77,23 @@ fn check(rep: &mut Report, b: &Build, cls: &str) {
                     log.push((l, true));
                 }
             }
+            3 => {
+                // an abandoned first attempt under the same id whose opener carried *more* than the
+                // opener that follows (the message is re-sent in a finer fragmentation): the
+                // payload of the new opener is a strict prefix of what is buffered
+                let mut pl = uniq_payload(1001);
+                pl.extend_from_slice(b"0w0w");
+                let l = nmea_ref::mk(f.n.max(2), 1, f.id, &pl, 0);
+                let _ = p.parse(&l, false);
+                log.push((l, false));
+            }
+            4 => {
+                // ... and the coarser one: the abandoned opener carried a strict prefix
+                let pl = uniq_payload(1001);
+                let l = nmea_ref::mk(f.n.max(2), 1, f.id, &pl[..pl.len() - 2], 0);
+                let _ = p.parse(&l, false);
+                log.push((l, false));
+            }
             _ => {}
         }
         let acc = prime(&mut p, f.n, f.k, f.id, &mut log);
